@@ -108,8 +108,12 @@ func c07PoolReset(c *Ctx) {
 						if !ok {
 							continue
 						}
-						fa, ok := s.Addr.(*ssa.FieldAddr)
-						if !ok || fa.Field != i || !an.SameVar(fa.X, x) {
+						// a store to this field, or a store of a whole struct value to *x (which assigns every field)
+						if fa, ok := s.Addr.(*ssa.FieldAddr); ok {
+							if fa.Field != i || !an.SameVar(fa.X, x) {
+								continue
+							}
+						} else if !an.SameVar(s.Addr, x) {
 							continue
 						}
 						if !an.Before(s, call) {
